@@ -29,8 +29,8 @@ def instances(tier, seed):
 
     def add(**kw):
         kw["label"] = "%s %s %s bonds=%s qn=%s qt=%s idx=%s right=%s%s" % (kw["op"], kw["cls"], "".join(kw["kinds"]), kw["bonds"], lib_short(kw["qn"]), kw["qntot"],
-                                                                         kw["qnidx"], kw["to_right"], (" stop=%s" % kw["stop"]) if kw.get("stop") is not None else "")
-        kw["key"] = "%s/%s" % (kw["op"], kw["cls"])
+                                                                         kw["qnidx"], kw["to_right"], (" stop=%s" % kw["stop"]) if kw.get("stop") is not None else "") + (" per-bond temp_m_trunc" if kw.get("temp_list") else "")
+        kw["key"] = "%s/%s" % (kw["op"], kw["cls"]) + ("/temp_list" if kw.get("temp_list") else "")
         out.append(kw)
 
     for cls, kinds, bonds in cs.structures(tier):
@@ -50,6 +50,7 @@ def instances(tier, seed):
                         add(op="canonicalise", cls=cls, kinds=kinds, bonds=bonds, qn=qn, qntot=qntot, qnidx=0, to_right=True)
                         if n == 2 or tier == "thorough":
                             add(op="compress", cls=cls, kinds=kinds, bonds=bonds, qn=qn, qntot=qntot, qnidx=0, to_right=True)
+                            add(op="compress", cls=cls, kinds=kinds, bonds=bonds, qn=qn, qntot=qntot, qnidx=0, to_right=True, temp_list=True)
                         if n > 2:
                             for stop in range(0, n):
                                 add(op="canonicalise", cls=cls, kinds=kinds, bonds=bonds, qn=qn, qntot=qntot, qnidx=0, to_right=True, stop=stop)
@@ -60,6 +61,7 @@ def instances(tier, seed):
                                 add(op="canonicalise", cls=cls, kinds=kinds, bonds=bonds, qn=qn, qntot=qntot, qnidx=n - 1, to_right=False, stop=stop)
                         if n == 2 or tier == "thorough":
                             add(op="compress", cls=cls, kinds=kinds, bonds=bonds, qn=qn, qntot=qntot, qnidx=n - 1, to_right=False)
+                            add(op="compress", cls=cls, kinds=kinds, bonds=bonds, qn=qn, qntot=qntot, qnidx=n - 1, to_right=False, temp_list=True)
                     if cls == "mps" and n <= 3:
                         add(op="ensure_left", cls=cls, kinds=kinds, bonds=bonds, qn=qn, qntot=qntot, qnidx=idx, to_right=(idx == 0))
                         add(op="ensure_right", cls=cls, kinds=kinds, bonds=bonds, qn=qn, qntot=qntot, qnidx=idx, to_right=(idx == 0))
@@ -120,7 +122,11 @@ def make_harness(P):
                 else:
                     from renormalizer.utils import CompressConfig, CompressCriteria
                     mp.compress_config = CompressConfig(CompressCriteria.fixed, max_bonddim=64)
-                    ret = mp.compress()
+                    if P.get("temp_list"):
+                        # per-bond limits equal to the current bond dimensions (non-uniform whenever the bonds differ; boundary entries 1): still lossless
+                        ret = mp.compress(temp_m_trunc=list(mp.bond_dims))
+                    else:
+                        ret = mp.compress()
                 ctx.check(op + ": returns self", ret is mp)
                 ctx.check(op + ": dense object unchanged", ctx.eq(lib.dense_of(mp), before))
                 full = stop is None
